@@ -517,8 +517,14 @@ class Charge:
         id_list : Sequence of int
             List of particle ids: ``[0, 12, 321]``
         """
+        had_charges: bool = not self._frame.empty
+
         if id_list:
             # TODO: Check carefully if 'inplace' is needed. This could break lot of things.
             self._frame.query(f"index not in {id_list}", inplace=True)
         else:
             self._frame = self.EMPTY_FRAME.copy()
+
+        if had_charges and self._frame.empty:
+            # The last charge was removed
+            self._array = np.zeros_like(self._array)
